@@ -24,7 +24,7 @@
 EXTENDS Engine, Json, SequencesExt
 
 CONSTANTS Variant,      \* "ref" | "built"
-          Setup,        \* operations executed before the threads start
+          Setup,        \* operations executed before the threads start (SetupDocs for the program tuples of ProgsDocs)
           ProgChoices   \* set of tuples of programs, one program per thread
 
 VARIABLES prog,   \* the tuple of programs chosen
@@ -107,6 +107,10 @@ WritersD == { <<Ld("base", DefRF)>>, <<Ld("A", DefDA)>>, <<[op |-> "Clear"]>> }
 SeqSet(S) == {S[i] : i \in 1..Len(S)}
 ProgsDocsQuick == Pairs(RendersDQ) \cup ({<<Ld("base", DefRF)>>} \X SeqSet(RendersDQ))
 ProgsDocs      == Pairs(RendersDT) \cup (WritersD \X SeqSet(RendersDT))
+\* the program tuples over document templates start from SetupDocs, all others from the constant Setup
+SetupOf(p) == IF p \in ProgsDocs THEN SetupDocs ELSE Setup
+ProgsQuickAll    == ProgsQuick \cup ProgsDocsQuick
+ProgsThoroughAll == ProgsThorough \cup ProgsDocs
 
 \* ---- helpers ------------------------------------------------------------------
 RECURSIVE RunSeq(_, _), RunSeqB(_, _)
@@ -240,8 +244,8 @@ Init == /\ prog \in ProgChoices
         /\ ph = [t \in 1..Len(prog) |-> "idle"]
         /\ loc = [t \in 1..Len(prog) |-> NoLoc]
         /\ lk = 0
-        /\ st = RunSeq(InitSt, Setup)
-        /\ hs = RunSeqB(InitHs, Setup)
+        /\ st = RunSeq(InitSt, SetupOf(prog))
+        /\ hs = RunSeqB(InitHs, SetupOf(prog))
         /\ done = {}
         /\ sched = <<>>
 
@@ -270,7 +274,7 @@ Inv_CacheAgree == lk # 0 \/ \A n \in NamePool :
 
 \* ---- generation: print each complete schedule once -------------------------------------------
 ConcSeq(ops) == [i \in 1..Len(ops) |-> Conc(ops[i])]
-EmitC == ~AllDone \/ PrintT(<<"WZCASE", ToJson([setup |-> ConcSeq(Setup),
+EmitC == ~AllDone \/ PrintT(<<"WZCASE", ToJson([setup |-> ConcSeq(SetupOf(prog)),
                                                progs |-> [t \in Threads |-> ConcSeq(prog[t])],
                                                sched |-> sched,
                                                names |-> SetToSeq(NamePool), pdata |-> ProbeData])>>)
